@@ -65,3 +65,246 @@ Proof.
   { pose proof (byte_split i). lia. }
   destruct (0 <? N.land (b2n i) 128); intros H'; injection H' as <-; nia.
 Qed.
+
+(* ---- the invariant ------------------------------------------------------------------------------------------------- *)
+Definition hash_ok (o : oracles) : Prop :=
+  forall x, item_ok (o_sha256 o x) /\ item_ok (o_sha1 o x) /\ item_ok (o_ripemd160 o x)
+            /\ item_ok (o_hash160 o x) /\ item_ok (o_hash256 o x).
+
+Lemma bool_vec_ok b : item_ok (bool_vec b).
+Proof. destruct b; unfold item_ok; cbn; lia. Qed.
+
+Lemma on_stack_inv c f c' : on_stack c f = COk c' -> exists st', f (e_stack c) = COk st' /\ c' = set_stack c st'.
+Proof. unfold on_stack. destruct (f (e_stack c)) as [st'|e|]; cbn; try discriminate. intros H; injection H as <-. eauto. Qed.
+
+Lemma un_num_inv mn f st st' : (forall n, (Z.abs n < 2 ^ 40)%Z -> (Z.abs (f n) < 2 ^ 63)%Z) ->
+  Forall item_ok st -> un_num mn f st = COk st' -> Forall item_ok st'.
+Proof.
+  intros Hf H. destruct st as [|a r]; cbn [un_num]; [discriminate|].
+  destruct (script_num mn 4 a) as [n|e|] eqn:E; cbn [cbind]; try discriminate.
+  intros K; injection K as <-. inversion H; subst. constructor; [|assumption].
+  apply num_vec_ok, Hf. eapply script_num_bound; [|exact E]. lia.
+Qed.
+
+Lemma bin_num_inv mn f st st' : (forall a b, (Z.abs a < 2 ^ 40)%Z -> (Z.abs b < 2 ^ 40)%Z -> (Z.abs (f a b) < 2 ^ 63)%Z) ->
+  Forall item_ok st -> bin_num mn f st = COk st' -> Forall item_ok st'.
+Proof.
+  intros Hf H. destruct st as [|b [|a r]]; cbn [bin_num]; try discriminate.
+  destruct (script_num mn 4 a) as [n1|e|] eqn:E1; cbn [cbind]; try discriminate.
+  destruct (script_num mn 4 b) as [n2|e|] eqn:E2; cbn [cbind]; try discriminate.
+  intros K; injection K as <-. inversion H as [|? ? _ H']; subst. inversion H'; subst. constructor; [|assumption].
+  apply num_vec_ok, Hf; (eapply script_num_bound; [|eassumption]; lia).
+Qed.
+
+Lemma Forall_nth_ok k : forall (r : list bytes), Forall item_ok r -> (k < length r)%nat -> item_ok (nth k r []).
+Proof. intros r H Hk. rewrite Forall_forall in H. apply H. apply nth_In. exact Hk. Qed.
+
+Lemma Forall_remove_nth k : forall (r : list bytes), Forall item_ok r -> Forall item_ok (VMcore.remove_nth k r).
+Proof.
+  induction k as [|k IH]; intros r H; destruct r as [|x r]; cbn [VMcore.remove_nth]; auto; inversion H; subst; auto.
+Qed.
+
+Ltac inv_fa := repeat match goal with H : Forall _ (_ :: _) |- _ => inversion H; clear H; subst end.
+Ltac fa := inv_fa; repeat (first [assumption | apply bool_vec_ok | solve [apply num_vec_ok; cbn; lia] | constructor]).
+Ltac blind H :=
+  repeat match type of H with
+         | context [match ?x with _ => _ end] => destruct x eqn:?; try discriminate H
+         | context [if ?x then _ else _] => destruct x eqn:?; try discriminate H
+         end.
+Ltac num_tac :=
+  intros; unfold zb, znz;
+  repeat match goal with |- context [if ?c then _ else _] => destruct c end; lia.
+
+Lemma pick_roll_inv mn roll st st' : Forall item_ok st -> op_pick_roll mn roll st = COk st' -> Forall item_ok st'.
+Proof.
+  intros H. unfold op_pick_roll. destruct st as [|a [|b r0]]; try discriminate.
+  set (r := b :: r0) in *. destruct (script_num mn 4 a) as [n|e|]; cbn [cbind]; try discriminate.
+  destruct (Z.ltb_spec n 0); cbn [orb]; [discriminate|].
+  destruct (Z.leb_spec (Z.of_nat (length r)) n); [discriminate|].
+  intros K; injection K as <-. inversion H; subst. constructor.
+  - apply (Forall_nth_ok (Z.to_nat n) r); [assumption|lia].
+  - destruct roll; [apply (Forall_remove_nth (Z.to_nat n) r)|]; assumption.
+Qed.
+
+Section Inv.
+Variable o : oracles.
+Variable flags : N.
+Variable sv : sigversion.
+Variable ctx : txctx.
+Hypothesis Hh : hash_ok o.
+
+Lemma hash_op_inv h st st' : (forall x, item_ok (h x)) -> Forall item_ok st -> hash_op h st = COk st' -> Forall item_ok st'.
+Proof. intros Hx H. destruct st as [|a r]; cbn; [discriminate|]. intros K; injection K as <-. inversion H; subst. constructor; auto. Qed.
+
+Lemma checksig_inv verify c c' : op_checksig o flags sv verify c = COk c' ->
+  Forall item_ok (e_stack c) -> Forall item_ok (e_alt c) -> Forall item_ok (e_stack c') /\ Forall item_ok (e_alt c').
+Proof.
+  unfold op_checksig. destruct c as [stk alt vfx opc bch]. cbn [e_stack e_alt e_bch].
+  destruct stk as [|key [|sig r]]; try discriminate.
+  destruct (check_signature_encoding _ _ _); cbn [cbind]; try discriminate.
+  destruct (check_pubkey_encoding _ _ _); cbn [cbind]; try discriminate.
+  destruct (negb _ && _ && _); [discriminate|].
+  destruct verify; [destruct (run_checksig _ _ _ _ _); [|discriminate]|];
+    intros K; injection K as <-; cbn; intros H1 H2; split; fa.
+Qed.
+
+Lemma cms_inv mn verify c c' : op_checkmultisig o flags sv mn verify c = COk c' ->
+  Forall item_ok (e_stack c) -> Forall item_ok (e_alt c) -> Forall item_ok (e_stack c') /\ Forall item_ok (e_alt c').
+Proof.
+  unfold op_checkmultisig. destruct c as [stk alt vfx opc bch]. cbn [e_stack e_alt e_bch e_opc].
+  destruct stk as [|kc s1]; [discriminate|].
+  destruct (script_num mn 4 kc) as [nk|e|]; cbn [cbind]; try discriminate.
+  destruct ((nk <? 0)%Z || _); [discriminate|]. cbv zeta.
+  destruct (MAX_OPS_PER_SCRIPT <? _); [discriminate|].
+  destruct (length s1 <? _)%nat; [discriminate|].
+  destruct (skipn (Z.to_nat nk) s1) as [|sc s3] eqn:E1; [discriminate|].
+  destruct (script_num mn 4 sc) as [ns|e|]; cbn [cbind]; try discriminate.
+  destruct ((ns <? 0)%Z || _); [discriminate|].
+  destruct (length s3 <? _)%nat; [discriminate|].
+  destruct (cms_loop _ _ _ _ _ _) as [ok|e|]; cbn [cbind]; try discriminate.
+  destruct (negb ok && _ && _); [discriminate|].
+  destruct (skipn (Z.to_nat ns) s3) as [|dummy r] eqn:E2; [discriminate|].
+  destruct (_ && negb (len dummy =? 0)); [discriminate|].
+  intros K H1 H2.
+  assert (Hr : Forall item_ok r).
+  { inversion H1 as [|? ? _ Hs1]; subst. pose proof (Forall_skipn item_ok (Z.to_nat nk) _ Hs1) as K1. rewrite E1 in K1.
+    inversion K1 as [|? ? _ Hs3]; subst. pose proof (Forall_skipn item_ok (Z.to_nat ns) _ Hs3) as K2. rewrite E2 in K2.
+    inversion K2; assumption. }
+  destruct verify; [destruct ok; [|discriminate]|]; injection K as <-; cbn; split; fa.
+Qed.
+
+Lemma cltv_inv mn c c' : op_cltv flags mn ctx c = COk c' -> c' = c.
+Proof.
+  unfold op_cltv, op_nop_upgradable. destruct (negb _).
+  { destruct (flag_set _ _); [discriminate|]. intros K; injection K; auto. }
+  destruct (e_stack c) as [|a r]; [discriminate|]. destruct (script_num mn 5 a) as [z|e|]; cbn [cbind]; try discriminate.
+  destruct (z <? 0)%Z; [discriminate|]. destruct (check_lock_time _ _); [|discriminate]. intros K; injection K; auto.
+Qed.
+
+Lemma csv_inv mn c c' : op_csv flags mn ctx c = COk c' -> c' = c.
+Proof.
+  unfold op_csv, op_nop_upgradable. destruct (negb (flag_set flags VERIFY_CHECKSEQUENCEVERIFY)).
+  { destruct (flag_set _ _); [discriminate|]. intros K; injection K; auto. }
+  destruct (e_stack c) as [|a r]; [discriminate|]. destruct (script_num mn 5 a) as [z|e|]; cbn [cbind]; try discriminate.
+  destruct (z <? 0)%Z; [discriminate|]. destruct (negb _); [intros K; injection K; auto|].
+  destruct (check_sequence _ _); [|discriminate]. intros K; injection K; auto.
+Qed.
+
+Lemma exec_inv op rest fx c c' : exec_op o flags sv ctx op rest fx c = COk c' ->
+  Forall item_ok (e_stack c) -> Forall item_ok (e_alt c) -> N.of_nat (length (e_stack c)) < 2 ^ 32 ->
+  Forall item_ok (e_stack c') /\ Forall item_ok (e_alt c').
+Proof.
+  intros H H1 H2 H3.
+  destruct op; cbn [exec_op] in H; try discriminate H.
+  all: try (apply checksig_inv in H; assumption).
+  all: try (apply cms_inv in H; assumption).
+  all: try (apply cltv_inv in H; subst; auto).
+  all: try (apply csv_inv in H; subst; auto).
+  all: try (apply on_stack_inv in H; destruct H as (st' & Hf & ->); cbn [set_stack e_stack e_alt]; split; [|assumption]).
+  all: try (eapply un_num_inv; [|exact H1|exact Hf]; num_tac).
+  all: try (eapply bin_num_inv; [|exact H1|exact Hf]; num_tac).
+  all: try (eapply pick_roll_inv; [exact H1|exact Hf]).
+  all: try (eapply hash_op_inv; [|exact H1|exact Hf]; intros x; apply Hh).
+  all: destruct c as [stk alt vfx opc bch]; cbn [e_stack e_alt e_vf set_stack set_alt set_vf set_bch] in *.
+  (* arms that return a state *)
+  all: try (unfold op_if, op_nop_upgradable in H; cbn [e_stack e_alt e_vf set_stack set_alt set_vf set_bch] in H;
+            blind H; injection H as <-; cbn [e_stack e_alt]; split; fa; fail).
+  (* on_stack arms *)
+  all: cbv beta in Hf; unfold cbind in Hf.
+  all: try (match type of Hf with context [bin_num ?m ?f ?s] =>
+              destruct (bin_num m f s) as [st2|?|] eqn:Eb; try discriminate Hf;
+              apply bin_num_inv in Eb; [|num_tac|assumption] end).
+  all: try (blind Hf; injection Hf as <-; fa; fail).
+  (* OP_SIZE *)
+  destruct stk as [|a r]; [discriminate|]. injection Hf as <-. inversion H1; subst.
+  constructor; [|constructor; assumption]. apply num_vec_ok. unfold item_ok in *. change (2 ^ 32) with 4294967296 in *. lia.
+Qed.
+(* the script code changes only through OP_CODESEPARATOR, to what is left of the script *)
+Lemma checksig_bch verify c c' : op_checksig o flags sv verify c = COk c' -> e_bch c' = e_bch c.
+Proof.
+  unfold op_checksig. destruct c as [stk alt vfx opc bch]. cbn [e_stack e_alt e_bch].
+  destruct stk as [|key [|sig r]]; try discriminate.
+  destruct (check_signature_encoding _ _ _); cbn [cbind]; try discriminate.
+  destruct (check_pubkey_encoding _ _ _); cbn [cbind]; try discriminate.
+  destruct (negb _ && _ && _); [discriminate|].
+  destruct verify; [destruct (run_checksig _ _ _ _ _); [|discriminate]|]; intros K; injection K as <-; reflexivity.
+Qed.
+
+Lemma cms_bch mn verify c c' : op_checkmultisig o flags sv mn verify c = COk c' -> e_bch c' = e_bch c.
+Proof.
+  unfold op_checkmultisig. destruct c as [stk alt vfx opc bch]. cbn [e_stack e_alt e_bch e_opc].
+  destruct stk as [|kc s1]; [discriminate|].
+  destruct (script_num mn 4 kc) as [nk|e|]; cbn [cbind]; try discriminate.
+  destruct ((nk <? 0)%Z || _); [discriminate|]. cbv zeta.
+  destruct (MAX_OPS_PER_SCRIPT <? _); [discriminate|].
+  destruct (length s1 <? _)%nat; [discriminate|].
+  destruct (skipn (Z.to_nat nk) s1) as [|sc s3]; [discriminate|].
+  destruct (script_num mn 4 sc) as [ns|e|]; cbn [cbind]; try discriminate.
+  destruct ((ns <? 0)%Z || _); [discriminate|].
+  destruct (length s3 <? _)%nat; [discriminate|].
+  destruct (cms_loop _ _ _ _ _ _) as [ok|e|]; cbn [cbind]; try discriminate.
+  destruct (negb ok && _ && _); [discriminate|].
+  destruct (skipn (Z.to_nat ns) s3) as [|dummy r]; [discriminate|].
+  destruct (_ && negb (len dummy =? 0)); [discriminate|].
+  destruct verify; [destruct ok; [|discriminate]|]; intros K; injection K as <-; reflexivity.
+Qed.
+
+Lemma exec_bch op rest fx c c' : exec_op o flags sv ctx op rest fx c = COk c' ->
+  e_bch c' = e_bch c \/ e_bch c' = rest.
+Proof.
+  intros H.
+  destruct op; cbn [exec_op] in H; try discriminate H.
+  all: try (apply checksig_bch in H; left; assumption).
+  all: try (apply cms_bch in H; left; assumption).
+  all: try (apply cltv_inv in H; subst; left; reflexivity).
+  all: try (apply csv_inv in H; subst; left; reflexivity).
+  all: try (apply on_stack_inv in H; destruct H as (st' & Hf & ->); left; reflexivity).
+  all: destruct c as [stk alt vfx opc bch]; cbn [e_stack e_alt e_vf e_bch set_stack set_alt set_vf set_bch] in *.
+  all: unfold op_if, op_nop_upgradable in H; cbn [e_stack e_alt e_vf e_bch set_stack set_alt set_vf set_bch] in H;
+       blind H; injection H as <-; cbn [e_bch]; auto.
+Qed.
+
+Lemma step_bch op data rest c c' : VMcore.step o flags sv ctx op data rest c = COk c' ->
+  e_bch c' = e_bch c \/ e_bch c' = rest.
+Proof.
+  unfold VMcore.step. intros H.
+  destruct (MAX_SCRIPT_ELEMENT_SIZE <? len data); [discriminate|].
+  destruct ((96 <? b2n op) && _); [discriminate|].
+  destruct (is_disabled op); [discriminate|].
+  match type of H with cbind ?m _ = _ => destruct m as [s'|e|] eqn:E; cbn [cbind] in H; try discriminate H end.
+  destruct (MAX_STACK_ITEMS <? _); [discriminate|]. injection H as <-.
+  destruct c as [stk alt vfx opc bch]. cbn [e_stack e_alt e_vf e_opc e_bch set_opc] in *.
+  destruct (forallb (fun b : bool => b) vfx && (b2n op <=? 78)).
+  - destruct (flag_set flags VERIFY_MINIMALDATA && _); [discriminate|]. injection E as <-. left; reflexivity.
+  - destruct (forallb (fun b : bool => b) vfx || _).
+    + apply exec_bch in E. exact E.
+    + injection E as <-. left; reflexivity.
+Qed.
+
+Definition items_ok (stk alt : list bytes) : Prop :=
+  Forall item_ok stk /\ Forall item_ok alt /\ N.of_nat (length stk) < 2 ^ 32.
+
+Lemma step_inv op data rest c c' : VMcore.step o flags sv ctx op data rest c = COk c' ->
+  items_ok (e_stack c) (e_alt c) -> items_ok (e_stack c') (e_alt c').
+Proof.
+  unfold VMcore.step, items_ok. intros H (H1 & H2 & H3).
+  destruct (MAX_SCRIPT_ELEMENT_SIZE <? len data) eqn:Ed; [discriminate|].
+  destruct ((96 <? b2n op) && _); [discriminate|].
+  destruct (is_disabled op); [discriminate|].
+  match type of H with cbind ?m _ = _ => destruct m as [s'|e|] eqn:E; cbn [cbind] in H; try discriminate H end.
+  destruct (MAX_STACK_ITEMS <? depth (e_stack s') + depth (e_alt s')) eqn:Es; [discriminate|].
+  injection H as <-.
+  assert (Hd : N.of_nat (length (e_stack s')) < 2 ^ 32).
+  { unfold MAX_STACK_ITEMS, depth in Es. change (2 ^ 32) with 4294967296. lia. }
+  assert (Hfa : Forall item_ok (e_stack s') /\ Forall item_ok (e_alt s')).
+  { destruct c as [stk alt vfx opc bch]. cbn [e_stack e_alt e_vf e_opc set_opc] in *.
+    destruct (forallb (fun b : bool => b) vfx && (b2n op <=? 78)).
+    - destruct (flag_set flags VERIFY_MINIMALDATA && _); [discriminate|]. injection E as <-. cbn. split; [|assumption].
+      constructor; [|assumption]. unfold item_ok, MAX_SCRIPT_ELEMENT_SIZE, len in *. change (2 ^ 32) with 4294967296. lia.
+    - destruct (forallb (fun b : bool => b) vfx || _).
+      + apply exec_inv in E; cbn [e_stack e_alt]; assumption.
+      + injection E as <-. cbn. auto. }
+  tauto.
+Qed.
+
+End Inv.
